@@ -66,8 +66,8 @@ def collect_diffs(path, decisions):
     for d in decisions:
         ld = adjust_patch_level(path, d.common_path, d.local_diff)
         rd = adjust_patch_level(path, d.common_path, d.remote_diff)
-        local_diff.extend(ld)
-        remote_diff.extend(rd)
+        local_diff.extend(ld or ())
+        remote_diff.extend(rd or ())
     local_diff = combine_patches(local_diff)
     remote_diff = combine_patches(remote_diff)
     return local_diff, remote_diff
@@ -132,7 +132,9 @@ def bundle_decisions_by_index(base_path, decisions):
         else:
             # Removerange or addrange will have common_path
             # on list and key only in the diff entries
-            keys = set(e.key for e in chain(d.local_diff, d.remote_diff, d.get("custom_diff", ())))
+            # Onesided decisions have None for the diff of the other side
+            keys = set(e.key for e in chain(
+                d.local_diff or (), d.remote_diff or (), d.get("custom_diff") or ()))
             assert len(keys) == 1
             key, = keys
         decisions_by_index[key].append(d)
